@@ -14,7 +14,7 @@ def create_grid_hb_order(length, mask_radius):
     mask_radius: the circular mask radius. This code only works with a circular mask.
     """
 
-    from autoarray.util.gilbert_2d import gilbert2d
+    from autoarray.inversion.pixelization.image_mesh.hilbert import gilbert2d
 
     xy_generator = gilbert2d(length, length)
 
